@@ -27,7 +27,7 @@ RULES = {
     "R10": "the reveal command reveals what was asked: on every path main() saves reveal_plates(loaded screen, requested ids) to the output; nothing else writes the output",
 }
 MIN = {"R1": 5, "R2": 3, "R3": 2, "R4": 3, "R5": 3, "R6": 1, "R7": 16, "R8": 4, "R9": 8, "R10": 1}
-TRUSTED = ["numpy boolean indexing / np.isin semantics", "python ast"]
+TRUSTED = ["numpy boolean indexing / np.isin semantics", "python ast", "plate ids are the dense range 0 .. n_plates - 1 (C01; used to read a per-plate flag table expanded through plate_ids)"]
 TECHNIQUE = "dominance of refusal guards on the CFG, relational normal form of the mask expression, who-may-write scan"
 LEVEL_TEXT = ("Atomicity is an invariant re-established by the constructor at every operation (each operation builds its "
               "result through Screen(...)); the check decides that the guard is on every path to the stores, that "
